@@ -29,7 +29,6 @@ import (
 
 	"github.com/mycoria/mycoria/config"
 	"github.com/mycoria/mycoria/frame"
-	"github.com/mycoria/mycoria/router"
 
 	"verif/core"
 	"verif/ids"
@@ -100,20 +99,21 @@ func c07TunPacket(src, dst netip.Addr, proto byte, sport, dport uint16) []byte {
 	return pkt
 }
 
-// pingParts splits ping message data.
-func c07PingParts(msg []byte) (hdr router.PingHeader, hdrLen int, body []byte, ok bool) {
+// pingParts splits ping message data (header as a generic CBOR map).
+func c07PingParts(msg []byte) (hdr pingHdr, hdrLen int, body []byte, ok bool) {
 	if len(msg) < 3 || len(msg) < 2+int(msg[1]) {
-		return hdr, 0, nil, false
+		return nil, 0, nil, false
 	}
 	hdrLen = int(msg[1])
+	hdr = pingHdr{}
 	if err := cbor.Unmarshal(msg[2:2+hdrLen], &hdr); err != nil {
-		return hdr, 0, nil, false
+		return nil, 0, nil, false
 	}
 	return hdr, hdrLen, msg[2+hdrLen:], true
 }
 
-func c07PingMsg(hdr router.PingHeader, body []byte) []byte {
-	hd, err := cbor.Marshal(&hdr)
+func c07PingMsg(hdr pingHdr, body []byte) []byte {
+	hd, err := cbor.Marshal(hdr)
 	if err != nil || len(hd) > 255 {
 		panic("ping header")
 	}
@@ -124,9 +124,9 @@ func c07PingMsg(hdr router.PingHeader, body []byte) []byte {
 // craft builds a ping from `from` to `to` with the given header fields, sealed
 // by from's real session (i.e. authenticated as from).
 func c07Craft(from, to *vnet.Node, mt frame.MessageType, pingType string, code uint8, followUp bool, body []byte) (frame.Frame, error) {
-	hdr := router.PingHeader{PingID: 0x1234567, PingType: pingType, PingCode: code, FollowUp: followUp,
-		AddrHash: from.ID.Addr.Hash, KeyType: from.ID.Addr.Type, PublicKey: from.ID.Addr.PublicKey, Easing: from.ID.Addr.Easing}
-	f, err := from.Builder.NewFrameV1(from.IP(), to.IP(), mt, nil, c07PingMsg(hdr, body), nil)
+	hd := pingHeaderFor(from.ID, 0x1234567, pingType, code, followUp)
+	msg := append(append([]byte{1, byte(len(hd))}, hd...), body...)
+	f, err := from.Builder.NewFrameV1(from.IP(), to.IP(), mt, nil, msg, nil)
 	if err != nil {
 		return nil, err
 	}
@@ -347,7 +347,7 @@ func TestC07(t *testing.T) {
 			if !encrypted {
 				msg := data[parts.msgStart:parts.authStart]
 				if hdr, _, body, ok := c07PingParts(msg); ok {
-					hdr.PublicKey = attackerID.Addr.PublicKey
+					hdr["k"] = []byte(attackerID.Addr.PublicKey)
 					nm := c07PingMsg(hdr, body)
 					if len(nm) == len(msg) {
 						copy(data[parts.msgStart:], nm)
@@ -360,8 +360,11 @@ func TestC07(t *testing.T) {
 				msg := data[parts.msgStart:parts.authStart]
 				if hdr, _, body, ok := c07PingParts(msg); ok {
 					if c.Bool("reseal.ownkey-in-header") {
-						hdr.PublicKey = attackerID.Addr.PublicKey
-						hdr.Easing = attackerID.Addr.Easing
+						hdr["k"] = []byte(attackerID.Addr.PublicKey)
+						delete(hdr, "e")
+						if attackerID.Addr.Easing != 0 {
+							hdr["e"] = attackerID.Addr.Easing
+						}
 					}
 					b := frame.NewFrameBuilder()
 					f, err := b.NewFrameV1(X.IP(), V.IP(), mt, nil, c07PingMsg(hdr, body), data[parts.apxStart:])
